@@ -83,11 +83,16 @@ def main():
         raise TranslateError(f"memory.rs verify(): body changed: {vf!r}")
 
     coll = squash(fn_body(mem_na, r"pub fn collect_rollback_data\(", "collect_rollback_data"))
+    FIXED = ("letcommon=sp.min(self.stack.len());letmutstack_changes=get_changes(&self.stack[..common],"
+             "&desired_memory_state.stack[..common],0,);ifcommon<sp{letzeroes=alloc::vec![0u8;sp.saturating_sub(common)];"
+             "stack_changes.extend(get_changes(&zeroes,&desired_memory_state.stack[common..sp],common,));}")
     if "letstack_changes=get_changes(&self.stack[..sp],&desired_memory_state.stack[..sp],0);" in coll:
         slices_cur = True
+    elif FIXED in coll:
+        slices_cur = False
     else:
-        raise TranslateError("memory.rs collect_rollback_data: stack comparison no longer slices both buffers with [..sp]; "
-                             "update Model/Memory.lean `collectRollbackData` and this translator")
+        raise TranslateError("memory.rs collect_rollback_data: the stack comparison is neither today's `[..sp]` slicing of both "
+                             "buffers nor the repaired common-prefix form; update Model/Memory.lean `collectRollbackData` and this translator")
     if "assert!(hp>=self.hp," not in coll:
         raise TranslateError("memory.rs collect_rollback_data: heap-shrink assert missing")
     rb = squash(fn_body(mem_na, r"pub fn rollback\(&mut self, data: &MemoryRollbackData\)", "rollback"))
